@@ -237,6 +237,10 @@ impl Outcome {
     }
 }
 
+pub fn empty_outcome() -> Outcome {
+    Outcome { class: Class::Ok, files: BTreeMap::new(), stat: ShimStat::default(), events: vec![], canary: 0, neighbours_failed: 0, console: String::new() }
+}
+
 pub struct Env {
     pub shim: Shim,
     /// per-worker scratch root on tmpfs
@@ -559,7 +563,7 @@ fn child_main(env: &Env, target: &GrammarSrc, spec: &Spec, world: &World, l: &La
         }
         let canary = canary_order();
         if let Class::Err(m) = &mut class {
-            m.truncate(600);
+            *m = m.chars().take(600).collect();
         }
         (class, canary)
     });
@@ -716,43 +720,68 @@ fn run_rcomp(env: &Env, target: &GrammarSrc, spec: &Spec, world: &World, l: &Lay
             cmd.arg(grammar_arg(world, l));
         }
     }
-    cmd.stdin(Stdio::null()).stdout(Stdio::piped()).stderr(Stdio::piped());
-    let mut out = Outcome {
-        class: Class::Ok,
-        files: BTreeMap::new(),
-        stat: ShimStat::default(),
-        events: vec![],
-        canary: 0,
-        neighbours_failed: 0,
-        console: String::new(),
+    let so_path = env.scratch.join("rcomp.stdout");
+    let se_path = env.scratch.join("rcomp.stderr");
+    let (so, se) = match (std::fs::File::create(&so_path), std::fs::File::create(&se_path)) {
+        (Ok(a), Ok(b)) => (a, b),
+        _ => {
+            let mut out = empty_outcome();
+            out.class = Class::Abort("harness: cannot create rcomp output files".into());
+            return out;
+        }
     };
-    match cmd.output() {
+    cmd.stdin(Stdio::null()).stdout(so).stderr(se);
+    let mut out = empty_outcome();
+    match cmd.spawn() {
         Err(e) => {
             out.class = Class::Abort(format!("spawn rcomp: {e}"));
             return out;
         }
-        Ok(o) => {
-            let stdout = String::from_utf8_lossy(&o.stdout).to_string();
-            let stderr = String::from_utf8_lossy(&o.stderr).to_string();
+        Ok(mut child) => {
+            // wall-clock backstop only; nothing inside the run depends on it
+            let mut waited_ms: i64 = 0;
+            let status = loop {
+                match child.try_wait() {
+                    Ok(Some(st)) => break Some(st),
+                    Ok(None) => {
+                        if waited_ms >= env.timeout_ms as i64 {
+                            let _ = child.kill();
+                            let _ = child.wait();
+                            break None;
+                        }
+                        let step = if waited_ms < 200 { 2 } else { 20 };
+                        std::thread::sleep(std::time::Duration::from_millis(step));
+                        waited_ms += step as i64;
+                    }
+                    Err(_) => break None,
+                }
+            };
+            let stdout = String::from_utf8_lossy(&std::fs::read(&so_path).unwrap_or_default()).to_string();
+            let stderr = String::from_utf8_lossy(&std::fs::read(&se_path).unwrap_or_default()).to_string();
             out.console = format!("{stdout}\n--stderr--\n{stderr}");
             use std::os::unix::process::ExitStatusExt;
-            if let Some(sig) = o.status.signal() {
-                out.class = Class::Abort(format!("signal {sig}"));
-            } else if let Some(pos) = stderr.find("panicked at ") {
-                // "thread 'main' panicked at src/file.rs:LINE:COL:\nmsg"
-                let rest = &stderr[pos + "panicked at ".len()..];
-                let mut lines = rest.lines();
-                let loc = lines.next().unwrap_or("").trim_end_matches(':').to_string();
-                let msg = lines.next().unwrap_or("").to_string();
-                let mut it = loc.rsplitn(3, ':');
-                let _col = it.next();
-                let line = it.next().and_then(|x| x.parse().ok()).unwrap_or(0);
-                let file = it.next().unwrap_or(&loc).to_string();
-                out.class = Class::Panic(PanicInfo { file, line, msg, frame: String::new() });
-            } else if o.status.code() != Some(0) {
-                // clap usage errors exit with 2; anything else is not a
-                // diagnostic exit
-                out.class = Class::Abort(format!("exit status {:?}", o.status.code()));
+            match status {
+                None => out.class = Class::Timeout,
+                Some(status) => {
+                    if let Some(sig) = status.signal() {
+                        out.class = Class::Abort(format!("signal {sig}"));
+                    } else if let Some(pos) = stderr.find("panicked at ") {
+                        // "thread 'main' panicked at src/file.rs:LINE:COL:\nmsg"
+                        let rest = &stderr[pos + "panicked at ".len()..];
+                        let mut lines = rest.lines();
+                        let loc = lines.next().unwrap_or("").trim_end_matches(':').to_string();
+                        let msg = lines.next().unwrap_or("").to_string();
+                        let mut it = loc.rsplitn(3, ':');
+                        let _col = it.next();
+                        let line = it.next().and_then(|x| x.parse().ok()).unwrap_or(0);
+                        let file = it.next().unwrap_or(&loc).to_string();
+                        out.class = Class::Panic(PanicInfo { file, line, msg, frame: String::new() });
+                    } else if status.code() != Some(0) {
+                        // clap usage errors exit with 2; anything else is not a
+                        // diagnostic exit
+                        out.class = Class::Abort(format!("exit status {:?}", status.code()));
+                    }
+                }
             }
         }
     }
@@ -796,7 +825,21 @@ fn run_rcomp(env: &Env, target: &GrammarSrc, spec: &Spec, world: &World, l: &Lay
 
 /// One world, one compile of the target.  Deterministic given its arguments.
 pub fn run_world(env: &Env, target: &GrammarSrc, spec: &Spec, world: &World) -> Outcome {
-    let l = match prepare(env, target, spec, world) {
+    run_world_with(env, target, spec, world, None)
+}
+
+/// Like `run_world`, with a pre-existing actions file of exactly these bytes
+/// at the place the compiler will look for it.
+pub fn run_world_with(env: &Env, target: &GrammarSrc, spec: &Spec, world: &World, actions: Option<&[u8]>) -> Outcome {
+    let prepared = prepare(env, target, spec, world).and_then(|l| {
+        if let Some(a) = actions {
+            let adir = if spec.out_dirs { l.out_act.join("src") } else { l.src.clone() };
+            std::fs::create_dir_all(&adir)?;
+            std::fs::write(adir.join(format!("{}_actions.rs", target.stem)), a)?;
+        }
+        Ok(l)
+    });
+    let l = match prepared {
         Ok(l) => l,
         Err(e) => {
             return Outcome {
